@@ -251,6 +251,8 @@ package core
 //@   ensures #nonneg: forall j int :: 0 <= j && j < len(nodes) ==> result[j] >= 0
 //@   modifies inferred
 //@   option nopanic all
+// exact integer arithmetic: the share is computed with 128-bit bits.Mul64/Div64; a plain (wrapping) product must not appear
+//@   option arith mulchecked
 //@   loop 1 invariant 0 <= $i && $i <= len(nodes) && len(deltas) == len(nodes) && fresh(deltas) && fresh(remainders)
 //@   loop 1 invariant forall j int :: 0 <= j && j < len(nodes) ==> deltas[j] == (j < $i && nodes[j].sharedWeight > 0 ? hbase(nodes[j].sharedWeight, totalRes, totalSharedWeight) : 0)
 //@   loop 1 invariant len(remainders) <= $i
